@@ -303,3 +303,296 @@ Example ex_gen_sort :
   py_pandas_sort SchemaI {| idx := [Some "frame"]%string; cols := cols default_table |} (ByStr "frame") false
   = let t := {| idx := [Some "frame_index"]%string; cols := cols default_table |} in ROk (t, Some t).
 Proof. reflexivity. Qed.
+
+(* =========================================================================================
+   ROUTE T, tables WITH a column 'z' (3-D features) and the remaining layout gaps.
+   The theorems C20_gen_stages_equal_model / C20_gen_compose / C20_gen_reachable_layouts above
+   carry the hypothesis `has_col "z" s = false`, and C20_gen_same_numbers is about an
+   interpretation (BodyI) in which `'z' in f` is always False.  Below: the same statements
+   without that restriction, the drift stages taken from Gen/drift.v (C18's translation of
+   trackpy/motion.py) and the link stage from Gen/coords.v (C01's translation of
+   trackpy/linking/linking.py), and one concrete 3-D table through all four generated files.
+
+   Model/TrajLayout3.v is the layout model with pos_columns = guess_pos_columns(f) for the stages
+   that guess (link, link_partial, compute_drift / subtract_drift, cluster: z, y, x when the table
+   has 'z') and the literal ['x', 'y'] for those that do not (msd, imsd, emsd, proximity,
+   relate_frames); run_producer3 / run_consumer3 / run_pipeline3 are its stages.
+   ========================================================================================= *)
+From TP Require Import Model.TrajLayout3 Model.PyFiltering3 Model.PyDriftSchema
+                       Proofs.TrajGen3 Proofs.TrajGen3Data Proofs.TrajGenDrift.
+From TP Require Model.PyDrift Gen.drift Model.PyCoords Gen.coords Proofs.Cands Proofs.TrajGenLink
+                Model.TrajPipeline3 Proofs.TrajPipeline3.
+
+(* ---- (b') layout, any table ----------------------------------------------------------------- *)
+
+(* the z-aware layout model IS Model/TrajLayout.v's on every table without a column 'z' *)
+Theorem C20_layout_model_3d_extends_2d : forall (s : schema),
+  has_col "z" s = false ->
+  (forall v p, run_producer3 v p s = run_producer v p s) /\
+  (forall c, run_consumer3 fixed c s = run_consumer fixed c s).
+Proof. exact (fun s Hz => conj (fun v p => run_producer3_2d v p s Hz) (fun c => run_consumer3_2d c s Hz)). Qed.
+Print Assumptions C20_layout_model_3d_extends_2d.
+
+(* C20_gen_stages_equal_model without the restriction: on EVERY schema -- with or without 'z',
+   column-deficient or oddly indexed -- each stage built on the generated functions gives the
+   z-aware model's outcome *)
+Theorem C20_gen_stages_equal_model_3d : forall (a : filter_args) (s : schema),
+  (forall p, to_outcome (g_run_producer a p s) = Some (run_producer3 fixed p s)) /\
+  (forall c, to_outcome (g_run_consumer a c s) = Some (run_consumer3 fixed c s)).
+Proof. exact gen_stages_equal_model3. Qed.
+Print Assumptions C20_gen_stages_equal_model_3d.
+
+(* C20_gen_compose without the restriction.  traj_cols alone suffices: a table that has 'z' also
+   has y and x, which is all guess_pos_columns can ask for *)
+Theorem C20_gen_compose_3d : forall (a : filter_args) (ps : list producer) (s : schema),
+  traj_cols s ->
+  exists s', g_run_pipeline a ps s = ROk s' /\ traj_cols s' /\ cols s' = cols s /\
+             forall c : consumer, exists r, g_run_consumer a c s' = ROk r.
+Proof. exact g_compose3. Qed.
+Print Assumptions C20_gen_compose_3d.
+
+Theorem C20_gen_reachable_layouts_3d : forall (a : filter_args) ps s s',
+  traj_cols s -> idx s = [None] -> g_run_pipeline a ps s = ROk s' ->
+  In (idx s') [ [None]; [Some "frame"]; [Some "frame"; Some "particle"];
+                [Some "frame_index"]; [Some "frame_index"; Some "particle"] ]%string
+  /\ cols s' = cols s.
+Proof. exact g_reachable_from_default3. Qed.
+Print Assumptions C20_gen_reachable_layouts_3d.
+
+(* what the generated guess_pos_columns / compute_drift answer for a trajectory table with 'z' *)
+Theorem C20_gen_3d_answers : forall (a : filter_args) (s : schema),
+  traj_cols s -> has_col "z" s = true ->
+  py_guess_pos_columns SchemaI s = ["z"; "y"; "x"] /\
+  g_run_consumer a CComputeDrift s = ROk {| idx := [Some "frame"]; cols := ["z"; "y"; "x"] |}.
+Proof. exact gen_3d_answers. Qed.
+Print Assumptions C20_gen_3d_answers.
+
+(* ---- (a') the generated filters on tables with further columns ------------------------------- *)
+
+(* RowsI3 xcols (Model/PyFiltering3.v): RowsI for a table that also has the columns xcols -- e.g.
+   ["z"; "y"; "x"; "mass"] -- whose values are not part of a [row] (reading one would be EUnmodelled).
+   The generated filters select exactly the rows of C20_stubs_exact / C20_clusters_exact -- so they
+   never read a further column --, and the generated guess_pos_columns answers z, y, x iff 'z' is there *)
+Theorem C20_gen_filters_exact_any_columns : forall (xcols : list name),
+  (forall rows threshold,
+     py_filter_stubs (RowsI3 xcols) rows threshold =
+     ROk (filter (fun r => match pid r with
+                           | Some p => (threshold <=? observations p rows)%Z
+                           | None => false
+                           end) rows)) /\
+  (forall rows quant cut,
+     py_filter_clusters (RowsI3 xcols) rows quant (Some (Some cut)) =
+     ROk (filter (fun r => match pid r with
+                           | Some p => match qmean (traj_sizes p rows) with
+                                       | Some m => Qltb m cut
+                                       | None => false
+                                       end
+                           | None => false
+                           end) rows)) /\
+  (forall rows quant, py_filter_clusters (RowsI3 xcols) rows quant None = ROk (filter_clusters_q rows quant)) /\
+  (forall rows, py_guess_pos_columns (RowsI3 xcols) rows
+                = if mem_name "z" xcols then ["z"; "y"; "x"] else ["y"; "x"]).
+Proof. exact gen_filters_exact3. Qed.
+Print Assumptions C20_gen_filters_exact_any_columns.
+
+(* ---- (c') data flow, any further columns ----------------------------------------------------- *)
+
+(* C20_gen_same_numbers for tables with the further columns xcols (BodyI3).  The numeric kernels of
+   link / link_partial / compute_drift now TAKE the position columns, and the stages hand them what the
+   generated guess_pos_columns answers for the table at hand (g_d_link3 / g_d_compute_drift3) *)
+Theorem C20_gen_same_numbers_3d :
+  forall (R : Type) (fr part : R -> Z) (k_link k_link_partial : list name -> list R -> list R)
+         (k_keep_stubs k_keep_clusters : list R -> R -> bool)
+         (drift_t : Type) (k_drift : list name -> list R -> drift_t) (k_sub : drift_t -> Z -> R -> R)
+         (xcols : list name) (a : filter_args) (ps : list dstage) (b : body R),
+  let run := g_d_run3 R fr part k_link k_link_partial k_keep_stubs k_keep_clusters drift_t k_drift k_sub xcols a ps in
+  map snd (run b) = map snd (run (default_indexed R b)) /\
+  g_d_compute_drift3 R fr part k_keep_stubs drift_t k_drift xcols (run b) =
+  g_d_compute_drift3 R fr part k_keep_stubs drift_t k_drift xcols (run (default_indexed R b)).
+Proof. exact g_same_numbers3. Qed.
+Print Assumptions C20_gen_same_numbers_3d.
+
+(* ... and those position columns are z, y, x exactly when the table has a column 'z' *)
+Theorem C20_gen_kernels_get_guessed_columns :
+  forall (R : Type) (fr part : R -> Z) (k_keep_stubs : list R -> R -> bool)
+         (drift_t : Type) (k_drift : list name -> list R -> drift_t) (xcols : list name)
+         (k_link : list name -> list R -> list R) (b : body R),
+  g_d_link3 R fr part k_keep_stubs xcols k_link b =
+    (let b1 := sort_values R (by_frame R fr) b in
+     combine (map fst b1) (k_link (if mem_name "z" xcols then ["z"; "y"; "x"] else ["y"; "x"]) (map snd b1))) /\
+  g_d_compute_drift3 R fr part k_keep_stubs drift_t k_drift xcols b =
+    k_drift (if mem_name "z" xcols then ["z"; "y"; "x"] else ["y"; "x"])
+            (map snd (sort_values R (by_particle_frame R fr part) (TrajData.reset_index_drop R b))).
+Proof. exact g_d_kernels_get_guess. Qed.
+Print Assumptions C20_gen_kernels_get_guessed_columns.
+
+(* ---- (d) composition across the generated files ------------------------------------------------ *)
+
+(* Gen/drift.v (compute_drift, subtract_drift and its own guess_pos_columns, generated from
+   trackpy/motion.py) read on layouts: SchemaDI (Model/PyDriftSchema.v) interprets its pandas interface
+   on [res schema], with p_pandas_sort := the generated pandas_sort of Gen/filtering.v.
+   For EVERY schema the generated compute_drift gives the z-aware model's outcome, whatever `smoothing`;
+   whenever compute_drift accepts the table the generated subtract_drift returns the model's table and
+   the caller's table is the argument itself unless inplace. *)
+Theorem C20_gen_drift_layout_equal_model :
+  (forall s smoothing,
+     drift.py_compute_drift SchemaDI (ROk s) smoothing None = of_outcome (st_compute_drift3 fixed s)) /\
+  (forall s inplace d,
+     st_compute_drift3 fixed s = Ok d ->
+     drift.py_subtract_drift SchemaDI (ROk s) None inplace =
+     let r := of_outcome ((if has_col "particle" s then TrajLayout.set_index ["frame"; "particle"] s
+                           else TrajLayout.set_index ["frame"] s)
+                          >>= fun t => if has_level "frame" t then getitems (cols d) t else Missing) in
+     (if inplace then r else ROk s, r)).
+Proof. exact (conj gen_drift_compute_schema gen_drift_subtract_schema). Qed.
+Print Assumptions C20_gen_drift_layout_equal_model.
+
+(* on a trajectory table, 2-D or 3-D, spelled out *)
+Theorem C20_gen_drift_on_trajectory_table : forall s, traj_cols s ->
+  (forall smoothing,
+     drift.py_compute_drift SchemaDI (ROk s) smoothing None
+     = ROk {| idx := [Some "frame"]; cols := if has_col "z" s then ["z"; "y"; "x"] else ["y"; "x"] |}) /\
+  (forall inplace,
+     drift.py_subtract_drift SchemaDI (ROk s) None inplace =
+     let r := ROk {| idx := [Some "frame"; Some "particle"]; cols := cols s |} in
+     (if inplace then r else ROk s, r)).
+Proof. exact gen_drift_on_traj_table. Qed.
+Print Assumptions C20_gen_drift_on_trajectory_table.
+
+(* The pipeline in which every stage that has a generated counterpart IS that counterpart
+   (Proofs/TrajGenDrift.v x_run_producer / x_run_consumer / x_run_pipeline):
+     link, link_partial      the generated guess_pos_columns + pandas_sort(inplace=True)   Gen/filtering.v
+                             (its column / dtype effect: Gen/coords.v, C20_gen_link_layout below)
+     filter_stubs/_clusters  py_filter_stubs / py_filter_clusters                          Gen/filtering.v
+     subtract_drift          py_subtract_drift (after py_compute_drift accepted)           Gen/drift.v
+     compute_drift           py_compute_drift                                              Gen/drift.v
+     cluster                 the generated guess_pos_columns                               Gen/filtering.v
+     msd, imsd, emsd, proximity, relate_frames   Model/TrajLayout.v (Gen/msd.v has no layout content:
+                             its tables are (particle, frame, positions) lists, see ex3_pipeline)
+   Each stage gives the z-aware model's outcome on EVERY schema; from any trajectory table every
+   pipeline, in any order and of any length, runs, keeps the columns, and every consumer accepts. *)
+Theorem C20_gen_compose_all_generated : forall (a : filter_args),
+  (forall p s, to_outcome (x_run_producer a p s) = Some (run_producer3 fixed p s)) /\
+  (forall c s, to_outcome (x_run_consumer a c s) = Some (run_consumer3 fixed c s)) /\
+  (forall ps s, traj_cols s ->
+     exists s', x_run_pipeline a ps s = ROk s' /\ traj_cols s' /\ cols s' = cols s /\
+                forall c : consumer, exists r, x_run_consumer a c s' = ROk r).
+Proof. exact (fun a => conj (x_run_producer_eq a) (conj (x_run_consumer_eq a) (x_compose a))). Qed.
+Print Assumptions C20_gen_compose_all_generated.
+
+(* Gen/coords.v's py_link (tables: column labels, the labels of the non-integer-typed columns, rows;
+   no index), pos_columns=None, for EVERY Linker interface L: whenever it returns a table g,
+   g has f's columns plus 'particle' (appended when new), 'frame' and 'particle' are integer-typed in
+   g and every other column keeps its dtype class, and f had 'frame' and every guessed position
+   column; a table lacking one of those is refused with KeyError -- exactly when the layout model's
+   link stage says Missing, whatever the index *)
+Theorem C20_gen_link_layout : forall (L : PyCoords.LinkerI) (f : PyCoords.DataFrame),
+  (forall g, coords.py_link L f None "frame" = PyCoords.ROk g ->
+     PyCoords.df_columns g = TrajGenLink.add_particle (PyCoords.df_columns f) /\
+     PyCoords.df_float g = filter (TrajGenLink.not_label "particle")
+                                  (filter (TrajGenLink.not_label "frame") (PyCoords.df_float f)) /\
+     forallb (fun c => PyCoords.has_col c f) ("frame" :: PyCoords.guess_pos_columns f) = true) /\
+  (forall i, forallb (fun c => PyCoords.has_col c f) ("frame" :: PyCoords.guess_pos_columns f) = false ->
+     coords.py_link L f None "frame" = PyCoords.RRaise PyCoords.EKeyError /\
+     st_link3 fixed (TrajGenLink.schema_of i f) = Missing).
+Proof. exact (fun L f => conj (TrajGenLink.py_link_layout L f) (fun i => TrajGenLink.py_link_refuses L f i)). Qed.
+Print Assumptions C20_gen_link_layout.
+
+(* with Model/Link.v's linker and a non-empty table: what the layout model accepts is never refused
+   for its layout -- the generated link returns a table with the model's columns or raises
+   SubnetOversizeException *)
+Theorem C20_gen_link_accepts : forall m mem max_size (f : PyCoords.DataFrame) i s',
+  Cands.metric_ok m -> PyCoords.df_rows f <> [] ->
+  st_link3 fixed (TrajGenLink.schema_of i f) = Ok s' ->
+  coords.py_link (PyCoords.model_linker m mem max_size) f None "frame" = PyCoords.RRaise PyCoords.EOversize \/
+  exists g, coords.py_link (PyCoords.model_linker m mem max_size) f None "frame" = PyCoords.ROk g /\
+            cols s' = PyCoords.df_columns g /\
+            PyCoords.df_float g = filter (TrajGenLink.not_label "particle")
+                                         (filter (TrajGenLink.not_label "frame") (PyCoords.df_float f)).
+Proof. exact TrajGenLink.py_link_accepts. Qed.
+Print Assumptions C20_gen_link_accepts.
+
+(* the generated link in front of the generated pipeline: whenever py_link returns g for a table f
+   (2-D or 3-D, any index i) that has a 'size' column, the layout model's link stage maps f's schema to
+   g's, g is a trajectory table, and every pipeline of generated stages runs on it and every consumer
+   accepts the result *)
+Theorem C20_gen_link_then_pipeline :
+  forall (L : PyCoords.LinkerI) (f g : PyCoords.DataFrame) (a : filter_args) (ps : list producer) (i : list (option string)),
+  coords.py_link L f None "frame" = PyCoords.ROk g -> PyCoords.has_col "size" f = true ->
+  let i' := map (option_map (rename (ByStr "frame"))) i in
+  st_link3 fixed (TrajGenLink.schema_of i f) = Ok (TrajGenLink.schema_of i' g) /\
+  traj_cols (TrajGenLink.schema_of i' g) /\
+  exists s', x_run_pipeline a ps (TrajGenLink.schema_of i' g) = ROk s' /\
+             cols s' = PyCoords.df_columns g /\
+             forall c : consumer, exists r, x_run_consumer a c s' = ROk r.
+Proof. exact TrajPipeline3.link_then_pipeline. Qed.
+Print Assumptions C20_gen_link_then_pipeline.
+
+(* ---- non-vacuity, 3-D ------------------------------------------------------------------------------ *)
+Example ex_traj_cols_3d : traj_cols default_table3 /\ has_col "z" default_table3 = true /\
+  traj_cols {| idx := [Some "frame"; Some "particle"]%string; cols := cols default_table3 |}.
+Proof. split; [|split]; repeat split. Qed.
+Example ex_gen_pipeline_3d :
+  g_run_pipeline ex_args [PSubtractDrift; PLink; PFilterStubs; PSubtractDrift; PLinkPartial] default_table3
+  = ROk {| idx := [Some "frame_index"; Some "particle"]%string; cols := cols default_table3 |} /\
+  x_run_pipeline ex_args [PSubtractDrift; PLink; PFilterStubs; PSubtractDrift; PLinkPartial] default_table3
+  = ROk {| idx := [Some "frame_index"; Some "particle"]%string; cols := cols default_table3 |} /\
+  x_run_consumer ex_args CComputeDrift default_table3 = ROk {| idx := [Some "frame"]; cols := ["z"; "y"; "x"] |}.
+Proof. split; [|split]; reflexivity. Qed.
+(* a 3-D table that lost its 'y' column is refused by the generated link and compute_drift stages *)
+Example ex_gen_missing_3d :
+  let s := {| idx := [None]; cols := ["z"; "x"; "mass"; "size"; "frame"; "particle"] |} in
+  g_run_producer ex_args PLink s = RRaise EKeyError /\ x_run_consumer ex_args CComputeDrift s = RRaise EKeyError.
+Proof. split; reflexivity. Qed.
+
+(* One concrete 3-D table (Model/TrajPipeline3.v ex3_table: four features over four frames, rows out of
+   frame order, 'frame' stored as floats) through the whole pipeline of generated functions
+       Gen/coords.v py_link -> Gen/filtering.v py_filter_stubs -> py_filter_clusters
+       -> Gen/drift.v py_compute_drift / py_subtract_drift -> Gen/msd.v py_imsd / py_emsd,
+   evaluated by vm_compute ([on_run view]: the view of the run, None if a stage raised), and the layout
+   pipeline of the generated stages on the same table's schema.  The numbers are those trackpy itself
+   returns for this table (checked by hand against /repo when this example was written). *)
+Example ex3_pipeline :
+  (* link: 'particle' appended, 'frame' now integer-typed; rows by frame; (row id, frame, label) *)
+  TrajPipeline3.on_run (fun r => PyCoords.df_columns (TrajPipeline3.r_linked r)) = Some ["z"; "y"; "x"; "mass"; "size"; "frame"; "particle"] /\
+  TrajPipeline3.on_run (fun r => PyCoords.df_float (TrajPipeline3.r_linked r)) = Some ["z"; "y"; "x"; "mass"; "size"] /\
+  TrajPipeline3.on_run (fun r => TrajPipeline3.ids_frames_labels (TrajPipeline3.r_linked r)) = Some
+    [ TrajPipeline3.ifl 1 0 0; TrajPipeline3.ifl 2 0 1; TrajPipeline3.ifl 10 0 2; TrajPipeline3.ifl 0 1 0; TrajPipeline3.ifl 3 1 1; TrajPipeline3.ifl 8 1 3; TrajPipeline3.ifl 11 1 2;
+      TrajPipeline3.ifl 4 2 0; TrajPipeline3.ifl 5 2 1; TrajPipeline3.ifl 9 2 3; TrajPipeline3.ifl 12 2 2; TrajPipeline3.ifl 6 3 1; TrajPipeline3.ifl 7 3 0; TrajPipeline3.ifl 13 3 2 ] /\
+  (* filter_stubs(3) drops the stub (rows 8, 9); filter_clusters(threshold=4) drops the blob (rows 10..13) *)
+  TrajPipeline3.on_run (fun r => map PyCoords.d_id (PyCoords.df_rows (TrajPipeline3.r_stubs r))) = Some [1; 2; 10; 0; 3; 11; 4; 5; 12; 6; 7; 13]%nat /\
+  TrajPipeline3.on_run (fun r => map PyCoords.d_id (PyCoords.df_rows (TrajPipeline3.r_clusters r))) = Some [1; 2; 0; 3; 4; 5; 6; 7]%nat /\
+  (* guess_pos_columns on the filters' table *)
+  TrajPipeline3.on_run TrajPipeline3.r_guess = Some ["z"; "y"; "x"] /\
+  (* compute_drift: one column per guessed position column, indexed by frame *)
+  TrajPipeline3.on_run (fun r => TrajPipeline3.show_curve (TrajPipeline3.r_drift r)) = Some
+    (["z"; "y"; "x"], [ ("z", [TrajPipeline3.fv 1 0; TrajPipeline3.fv 2 1; TrajPipeline3.fv 3 1]); ("y", [TrajPipeline3.fv 1 (1#2); TrajPipeline3.fv 2 0; TrajPipeline3.fv 3 (1#2)]);
+                        ("x", [TrajPipeline3.fv 1 1; TrajPipeline3.fv 2 2; TrajPipeline3.fv 3 3]) ]) /\
+  (* subtract_drift: the caller's table keeps its index, the result is indexed by (frame, particle),
+     rows by (frame, particle), every position column corrected, size untouched: (row id, frame, particle, [z; y; x; size]) *)
+  TrajPipeline3.on_run (fun r => (PyDrift.mt_index (TrajPipeline3.r_caller r), PyDrift.mt_index (TrajPipeline3.r_sub r), PyDrift.mt_cols (TrajPipeline3.r_sub r)))
+    = Some (["frame"], ["frame"; "particle"], ["z"; "y"; "x"; "mass"; "size"]) /\
+  TrajPipeline3.on_run (fun r => TrajPipeline3.show_rows (TrajPipeline3.r_sub r)) = Some
+    [ TrajPipeline3.rowv 1 0 0 [3; 5; 10; 2]; TrajPipeline3.rowv 2 0 1 [7; 8; 40; 3]; TrajPipeline3.rowv 0 1 0 [3; 9#2; 10; 2]; TrajPipeline3.rowv 3 1 1 [7; 17#2; 40; 3];
+      TrajPipeline3.rowv 4 2 0 [3; 5; 10; 2]; TrajPipeline3.rowv 5 2 1 [7; 8; 40; 3]; TrajPipeline3.rowv 7 3 0 [3; 9#2; 10; 2]; TrajPipeline3.rowv 6 3 1 [7; 17#2; 40; 3] ]%Q /\
+  (* imsd(t, 1, 1, 3) with pos_columns=None (['x','y']) and ['z','y','x']: lag times, index name, particles, values;
+     emsd(t, 1, 1, 3, detail=True, ['z','y','x']) *)
+  TrajPipeline3.on_run (fun r => TrajPipeline3.show_wide (TrajPipeline3.r_imsd_xy r)) =
+    Some (Some ([1; 2; 3], Some "lag time [s]", [0; 1]%Z,
+                [[Some (1#4); Some 0; Some (1#4)]; [Some (1#4); Some 0; Some (1#4)]]))%Q /\
+  TrajPipeline3.on_run (fun r => TrajPipeline3.show_wide (TrajPipeline3.r_imsd_zyx r)) = TrajPipeline3.on_run (fun r => TrajPipeline3.show_wide (TrajPipeline3.r_imsd_xy r)) /\
+  TrajPipeline3.on_run (fun r => TrajPipeline3.show_emsd (TrajPipeline3.r_emsd_zyx r)) =
+    Some (Some ([1; 2; 3]%Z,
+          [ (PyMsd.LDisp 2, [Some 0; Some 0; Some 0]); (PyMsd.LDisp 1, [Some 0; Some 0; Some 0]); (PyMsd.LDisp 0, [Some 0; Some 0; Some 0]);
+            (PyMsd.LSq 2, [Some 0; Some 0; Some 0]); (PyMsd.LSq 1, [Some (1#4); Some 0; Some (1#4)]); (PyMsd.LSq 0, [Some 0; Some 0; Some 0]);
+            (PyMsd.LMsd, [Some (1#4); Some 0; Some (1#4)]); (PyMsd.LN, [Some 6; Some (16#5); Some 2]);
+            (PyMsd.LLagt, [Some 1; Some 2; Some 3]) ]))%Q /\
+  (* the layout the generated stages leave behind on the same table's schema is what the data run shows *)
+  TrajPipeline3.on_run (fun r => ROk {| idx := [Some "frame"]; cols := PyCoords.df_columns (TrajPipeline3.r_clusters r) |})
+    = Some (x_run_pipeline TrajPipeline3.ex3_args [PLink; PFilterStubs; PFilterClusters] TrajPipeline3.ex3_schema) /\
+  TrajPipeline3.on_run (fun r => ROk {| idx := [Some "frame"; Some "particle"]; cols := PyCoords.df_columns (TrajPipeline3.r_clusters r) |})
+    = Some (x_run_pipeline TrajPipeline3.ex3_args [PLink; PFilterStubs; PFilterClusters; PSubtractDrift] TrajPipeline3.ex3_schema) /\
+  TrajPipeline3.on_run (fun r => ROk {| idx := [Some "frame"]; cols := PyDrift.cv_cols (TrajPipeline3.r_drift r) |})
+    = Some (x_run_consumer TrajPipeline3.ex3_args CComputeDrift
+              {| idx := [Some "frame"]; cols := ["z"; "y"; "x"; "mass"; "size"; "frame"; "particle"] |}).
+Proof. exact TrajPipeline3.ex3_pipeline. Qed.
